@@ -2,6 +2,7 @@ import Driver.Sexp
 import Driver.C15
 import Driver.Parse
 import Driver.TextCmd
+import Driver.Tree
 namespace Driver
 
 def handle (line : String) : String :=
@@ -12,6 +13,8 @@ def handle (line : String) : String :=
   | some (.atom "c11" :: args) => runC11 args
   | some (.atom "c09" :: args) => runC09 args
   | some (.atom "term" :: args) => runTerm args
+  | some (.atom "c13" :: args) => runC13 args
+  | some (.atom "eval" :: args) => runEval args
   | some [] => ""
   | _ => "bad-input"
 
